@@ -115,7 +115,7 @@ func register(d *svcDef) { services[d.name] = d }
 // serviceNames: the services in a fixed order.  rapid's SampledFrom prefers
 // early entries, so the services with the most shared state come first.
 func serviceNames() []string {
-	order := []string{"relay", "wallet", "scm", "cache", "dirk", "attester", "vm", "controller"}
+	order := []string{"relay", "wallet", "bidbest", "strategy", "propbest", "scm", "cache", "dirk", "attester", "vm", "biddeadline", "controller"}
 	names := make([]string, 0, len(services))
 	for _, n := range order {
 		if services[n] != nil {
